@@ -226,7 +226,9 @@ def run(c, chk):
     term = ('abort', 'exit', '_exit', '__assert_fail')
     nterm = 0
     for f in mod.funcs.values():
-        tcalls = [x for x in f.calls() if x.callee_name() in term]
+        if f.name in c.unknown_funcs:
+            continue      # a helper split off a known function is explored as part of that function
+        tcalls = [x for x in c.deep_calls(f) if x.callee_name() in term]
         if not tcalls:
             continue
         paths = pathcache.get(f.name)
